@@ -9,7 +9,7 @@ identities on (num, den) for every operand kind, including that no possibly non-
 reaches the truncating constructor; (R7) the alphabet the renderer emits is the one the reader
 accepts; (R8) table well-formedness and absence of longest-suffix / prefix ambiguity, exhaustively
 over all rows x prefixes; (R9) dimension-vector algebra component-wise, equality over every
-component. NOT decided: numeric values of tabulated factors; round trip of values."""
+component. NOT decided: numeric values of tabulated factors; round trip of values. (R11) the unit tables are changed only by a registration that records exactly what it added and removes exactly that (shared with C09.R2/R3)."""
 import ast
 import re as _re
 
